@@ -1,7 +1,7 @@
 """C14 - generators of histories."""
 import itertools
 
-from .c14_run import VALS, ESCAPING, GARBAGE_CONTRACT, NAMES, DECOYS, PATHS, DOMAINS, SEPS, run_history
+from .c14_run import VALS, ESCAPING, GARBAGE_CONTRACT, GARBAGE_OTHER, NAMES, DECOYS, PATHS, DOMAINS, SEPS, run_history
 
 HOPS = ['r', 'w', 'k', 'c', 'g', 'd', 'x', 'A', 'L', 'G']
 HOP_W = [30, 28, 6, 3, 9, 9, 5, 14, 3, 1]
@@ -178,7 +178,7 @@ def gen_case(rng, backend=None, max_ops=40):
             used += 1
         else:
             client = rng.choice(sorted(have))
-            how = rng.choices(['cut', 'zero', 'garbage'], weights=[6, 1, 2])[0]
+            how = rng.choices(['cut', 'zero', 'garbage', 'garbage_other'], weights=[6, 1, 2, 2])[0]
             ops.append(['tear', client, how, rng.randrange(1000)])
             used += 1
             exp.pop(client, None)
@@ -236,6 +236,9 @@ def torn_cases(rng, nfiles):
         for g in range(len(GARBAGE_CONTRACT)):
             out.append({'backend': 'file', 'timeout': T, 'idseed': fi, 'ops':
                         pre + [['tear', 1, 'garbage', g]] + tails[g % 2], 'torn': [fi, 'garbage', g]})
+        for g in range(len(GARBAGE_OTHER)):
+            out.append({'backend': 'file', 'timeout': T, 'idseed': fi, 'ops':
+                        pre + [['tear', 1, 'garbage_other', g]] + tails[g % 2], 'torn': [fi, 'garbage_other', g]})
     return out
 
 
